@@ -12,13 +12,13 @@ import vlib
 
 POOLS = {
     # size -> constant -> definition in SqlGrammarMC.tla
-    "S": dict(UniStrs="MC_UniStrs_S", UniIdents="MC_UniIdents_S", TrickyStrs="MC_TrickyStrs_S", QuotedIdents="MC_QuotedIdents", Aliases="MC_Aliases_S", Dbs="MC_Dbs_S", IntLits="MC_IntLits", StrLits="MC_StrLits", LimVals="MC_LimVals_S",
+    "S": dict(BigInts="MC_BigInts_S", UniStrs="MC_UniStrs_S", UniIdents="MC_UniIdents_S", TrickyStrs="MC_TrickyStrs_S", QuotedIdents="MC_QuotedIdents", Aliases="MC_Aliases_S", Dbs="MC_Dbs_S", IntLits="MC_IntLits", StrLits="MC_StrLits", LimVals="MC_LimVals_S",
               LeafSet="MC_LeafSet_S", LeafPool="MC_LeafPool_S", ItemPool="MC_ItemPool_S", CondPool="MC_CondPool_S",
               ColPool="MC_ColPool_S", LitPool="MC_LitPool", JoinTblPool="MC_JoinTblPool_S"),
-    "Q": dict(UniStrs="MC_UniStrs", UniIdents="MC_UniIdents", TrickyStrs="MC_TrickyStrs", QuotedIdents="MC_QuotedIdents", Aliases="MC_Aliases", Dbs="MC_Dbs", IntLits="MC_IntLits", StrLits="MC_StrLits", LimVals="MC_LimVals",
+    "Q": dict(BigInts="MC_BigInts", UniStrs="MC_UniStrs", UniIdents="MC_UniIdents", TrickyStrs="MC_TrickyStrs", QuotedIdents="MC_QuotedIdents", Aliases="MC_Aliases", Dbs="MC_Dbs", IntLits="MC_IntLits", StrLits="MC_StrLits", LimVals="MC_LimVals",
               LeafSet="MC_LeafSet_Q", LeafPool="MC_LeafPool_Q", ItemPool="MC_ItemPool_Q", CondPool="MC_CondPool_Q",
               ColPool="MC_ColPool_Q", LitPool="MC_LitPool", JoinTblPool="MC_JoinTblPool"),
-    "T": dict(UniStrs="MC_UniStrs", UniIdents="MC_UniIdents", TrickyStrs="MC_TrickyStrs", QuotedIdents="MC_QuotedIdents", Aliases="MC_Aliases", Dbs="MC_Dbs", IntLits="MC_IntLits_T", StrLits="MC_StrLits_T", LimVals="MC_LimVals",
+    "T": dict(BigInts="MC_BigInts", UniStrs="MC_UniStrs", UniIdents="MC_UniIdents", TrickyStrs="MC_TrickyStrs", QuotedIdents="MC_QuotedIdents", Aliases="MC_Aliases", Dbs="MC_Dbs", IntLits="MC_IntLits_T", StrLits="MC_StrLits_T", LimVals="MC_LimVals",
               LeafSet="MC_LeafSet_T", LeafPool="MC_LeafPool_T", ItemPool="MC_ItemPool_T", CondPool="MC_CondPool_T",
               ColPool="MC_ColPool_T", LitPool="MC_LitPool_T", JoinTblPool="MC_JoinTblPool"),
 }
@@ -33,7 +33,7 @@ SLICE_NAMES = ["sel_item_expr", "sel_item_leaf", "sel_item_tree", "sel_items", "
                "sel_where_leaf", "sel_where_tree", "sel_group_count", "sel_group_cols", "sel_group_alias", "sel_order", "sel_limit",
                "sel_combo", "ins_cols", "ins_row", "ins_rows", "upd_one", "upd_list", "upd_where_leaf", "upd_where_tree", "del_all",
                "del_leaf", "del_tree", "create_table", "create_database", "use", "show", "given",
-               "str_insert", "str_update", "str_cond", "str_item", "qid", "uni"]
+               "str_insert", "str_update", "str_cond", "str_item", "qid", "uni", "big"]
 
 
 def cfg(size, slices, stmts="MC_None", vocab="MC_None", vocab2="MC_None", max_junk=0, max_tail=99, at_end=False,
@@ -79,6 +79,18 @@ def unescape(o):
         return [unescape(x) for x in o]
     if isinstance(o, dict):
         return {k: unescape(v) for k, v in o.items()}
+    return o
+
+
+def bigints(o):
+    """SqlGrammar carries an integer literal beyond 32 bits as its decimal text, {"k": "big", "d": "..."}; it denotes
+    the integer literal of that value, which is how the parser's result is reported: {"k": "int", "i": value}."""
+    if isinstance(o, dict):
+        if o.get("k") == "big" and set(o) == {"k", "d"}:
+            return {"k": "int", "i": int(o["d"])}
+        return {k: bigints(v) for k, v in o.items()}
+    if isinstance(o, list):
+        return [bigints(x) for x in o]
     return o
 
 
